@@ -98,6 +98,7 @@ class MarginRule(cssrule.CSSRule):
 
     def _setMargin(self, margin):
         """Check if new keyword fits the rule it is used for."""
+        self._checkReadonly()
         n = self._normalize(margin)
 
         if n not in MarginRule.margins:
@@ -182,24 +183,23 @@ class MarginRule(cssrule.CSSRule):
         ok, seq, store, unused = ProdParser().parse(cssText, 'MarginRule', prods)
 
         if ok:
-            # TODO: use seq for serializing instead of fixed stuff?
-            self._setSeq(seq)
+            # new style, parsed before anything is set as it may raise:
+            newStyle = CSSStyleDeclaration(parentRule=self)
+            if 'styletokens' in store:
+                newStyle.cssText = store['styletokens']
 
-            if 'margin' in store:
-                # may raise:
-                self.margin = store['margin'].value
-            else:
+            if 'margin' not in store:
                 self._log.error(
                     'No margin @keyword for this %s rule' % self.margin,
                     error=xml.dom.InvalidModificationErr,
                 )
-
-            # new empty style
-            self.style = CSSStyleDeclaration(parentRule=self)
-
-            if 'styletokens' in store:
+            else:
                 # may raise:
-                self.style.cssText = store['styletokens']
+                self.margin = store['margin'].value
+
+            # TODO: use seq for serializing instead of fixed stuff?
+            self._setSeq(seq)
+            self.style = newStyle
 
     cssText = property(
         fget=_getCssText,
